@@ -55,7 +55,9 @@ INLINE_KEEP = {
 KEEP_LOOP_HELPERS = {"librfn/mlog.c"}
 # units whose PUBLIC functions are also inlined into their callers inside the same unit (they stay defined as well): the
 # message queue's operations are analysed as wholes even when one is rebuilt on top of another (receive on top of a peek)
-INLINE_PUBLIC_CALLEES = {"librfn/messageq.c"}
+INLINE_PUBLIC_CALLEES = {"librfn/messageq.c": (),
+                         # (the log's writers and readers are the rules' anchors; an accessor added next to them is not)
+                         "librfn/mlog.c": ("vmlog", "vmlog_nice", "mlog", "mlog_nice", "mlog_clear", "mlog_dump", "mlog_get_line")}
 
 _workdir = None
 _lock = threading.Lock()
@@ -153,7 +155,8 @@ def compile_unit(path, config="default", extra=(), repo=None, mem2reg=True, inli
             defined = {f.name: f for f in m0.defined_functions()}
             for name in sorted(called & set(defined)):
                 f = defined[name]
-                if not f.internal and not f.loops_headers() and name not in [c.callee for c in f.calls()]:
+                if not f.internal and not f.loops_headers() and name not in [c.callee for c in f.calls()] and \
+                        name not in INLINE_PUBLIC_CALLEES[rel]:
                     victims.append(name)
             victims = sorted(set(victims))
         # (no early return when there is nothing to inline: the same function-level normalisation - jump threading of
